@@ -368,6 +368,12 @@ class SymReal:
     def log(self):
         return self._ufn("log")
 
+    def expm1(self):
+        return self._ufn("exp") - 1.0
+
+    def log1p(self):
+        return (self + 1.0)._ufn("log")
+
     def sqrt(self):
         return self._ufn("sqrt")
 
